@@ -55,6 +55,9 @@ CHECKS = {
  "C12": ("exploration", "exhaustive differential over (wrapper chain, target, meta item): W<T>::from_meta vs the wrapper semantics applied to T::from_meta on the same item",
          "odometer", "10 wrappers x 14 targets and all 100 two-level compositions x 5 targets x 66 items: same acceptance, same value, same error leaves and spans; Result wrappers never fail outwardly; Override word -> Inherit; from_none per wrapper; SpannedValue range; WithOriginal copy; direct from_list for forwarding wrappers",
          "the inner target's own conversion is the reference", "DESIGN.md §4 C12"),
+ "C13": ("exploration", "exhaustive enumeration of (syntax target, grammar fragment, spelling) against syn's own parse of the fragment; bare / in-list / invisible-group / quoted spellings cross-checked",
+         "odometer", "45 syntax-valued targets x ~110 fragments (quick) / +~430 second-level compositions (thorough) in up to six spellings: accepted bare values print token-for-token as written, quoted values equal syn's parse of the contents and are accepted exactly when it succeeds, all spellings agree, rejections are spanned; parse_expr helpers differ only on string literals",
+         "syn::parse_str::<T> is 'the same grammar'; token comparison ignores the renderer's spacing", "DESIGN.md §4 C13"),
 }
 PENDING = {}
 props = [json.loads(l) for l in open(os.path.join(V, "properties.jsonl"))]
